@@ -299,7 +299,7 @@ let proto file =
            (match find "ST" with l :: _ -> incr checked; if l <> mst then diff "%s: real `%s` model `%s`" (where ()) l mst | [] -> ());
            (* tracker *)
            let u2e = List.sort compare (List.map (fun (u, _) -> ds u) (u2e_list pr)) in
-           let ctok = List.sort compare (List.map (fun (u, t) -> ds u ^ ":" ^ ds t) pr.t_ctok) in
+           let ctok = List.sort compare (List.map (fun ((u, t), _) -> ds u ^ ":" ^ ds t) pr.t_ctok) in
            let dash l = if l = [] then "-" else String.concat "," l in
            let mtrk = Printf.sprintf "TRK %d u2e=%s e2u=%d queue=%d ctok=%s htok=%d ptok=%d promo=%d" pi (dash u2e)
                (List.length (e2u_list pr)) (List.length pr.t_queue) (dash ctok) (List.length pr.t_htok) (List.length (ptok_list pr)) (if pr.t_promo then 1 else 0) in
